@@ -5,7 +5,7 @@ LEVEL = "model_checking"
 TECHNIQUE = "CBMC bounded symbolic execution of arena.c save/load on a symbolic arena (contents, relocation slots and their targets symbolic; object addresses arbitrary)"
 ASSUMPTIONS = [
     "arena: 2 buffers of 24 and 16 symbolic bytes, <= 2 relocatable slots holding NULL or a pointer to any (buffer, offset)",
-    "behavioural equality of scans on the loaded rules is argued from byte/pointer isomorphism (scan code reads only the arena), not solved",
+    "H4: known finding (string external redefined then saved aborts); H5: AC transition-table growth keeps every written entry inside the saved size", "behavioural equality of scans on the loaded rules is argued from byte/pointer isomorphism (scan code reads only the arena), not solved",
     "yr_realloc hands out 32-byte objects (see harness/common/arena_env.h)",
 ]
 LEVEL_TEXT = ("Bounded model checking of the real saver and loader: isomorphism of the loaded arena, bitwise preservation of the saved one and "
